@@ -957,7 +957,7 @@ func (p *Policy) sanitizeStyles(attr html.Attribute, elementName string) html.At
 	}
 
 	//Add semi-colon to end to fix parsing issue
-	attr.Val = strings.TrimRight(attr.Val, " ")
+	attr.Val = strings.TrimRight(attr.Val, " \t\n\r\f")
 	if len(attr.Val) > 0 && attr.Val[len(attr.Val)-1] != ';' {
 		attr.Val = attr.Val + ";"
 	} else if len(attr.Val) > 0 && hasOpenTrailingEscape(attr.Val[:len(attr.Val)-1]) {
